@@ -467,6 +467,311 @@ theorem C18_first_stop (es : EarlyStopping ℝ) (p : ℕ) (_hp1 : 1 ≤ p) (hp :
           unfold StopsAt at this ⊢
           rwa [visible_cons]
 
+/-! ### several stop sources in one fit: a stop request, once made, stands -/
+
+/-- **C18 a stop request stands (one stopper).** Whatever the evaluator holds, whatever the epoch: if `on_epoch_end` of an
+`EarlyStopping` returns, it either leaves the flag and `last_epoch` exactly as it found them or sets the flag (and
+`last_epoch`); in particular a flag that was ALREADY set — by another stopper listed earlier, by any other callback in
+this dispatch or at the end of a batch of this epoch — is still set afterwards.  (A stopper that assigned
+`stop_training = (deviation < tolerance)` would clear it.) -/
+theorem C18_stop_request_stands {α : Type} [Sub α] [Div α] [Zero α] [BEq α] [LT α] [DecidableLT α] [Transc α]
+    (es : EarlyStopping α) (ev : AnyEval W α) (st st' : StopState) (e : Int)
+    (h : es.onEpochEnd ev st e = .ok st') :
+    (st' = st ∨ st' = ⟨true, some e⟩) ∧ (st.stop = true → st'.stop = true) := by
+  have key : st' = st ∨ st' = ⟨true, some e⟩ := by
+    unfold EarlyStopping.onEpochEnd at h
+    split at h
+    · cases h
+    · cases h; exact Or.inl rfl
+    · split at h
+      · split at h
+        · cases h
+        · cases h; exact Or.inl rfl
+        · split at h
+          · cases h; exact Or.inr rfl
+          · cases h; exact Or.inl rfl
+      · cases h; exact Or.inl rfl
+  refine ⟨key, fun hs => ?_⟩
+  rcases key with h1 | h1
+  · rw [h1]; exact hs
+  · rw [h1]
+
+/-- **C18 a stop request stands (whole dispatch).** Through the `on_epoch_end` of any sequence of stop sources (stoppers of
+any configuration, other requesting callbacks), a flag that is set stays set. -/
+theorem C18_stop_request_stands_dispatch {α : Type} [Sub α] [Div α] [Zero α] [BEq α] [LT α] [DecidableLT α] [Transc α]
+    (ev : AnyEval W α) (e : Int) (l : List (StopSrc α × Option Int)) :
+    ∀ (l' : List (StopSrc α × Option Int)) (stop' : Bool), srcsEpochEnd ev e l true = .ok (l', stop') → stop' = true := by
+  induction l with
+  | nil => intro l' stop' h; simp [srcsEpochEnd] at h; exact h.2
+  | cons p rest ih =>
+    intro l' stop' h
+    obtain ⟨src, last⟩ := p
+    unfold srcsEpochEnd at h
+    split at h
+    · cases h
+    · rename_i st hst
+      have hstop : st.stop = true := by
+        cases src with
+        | stopper es => exact (C18_stop_request_stands es ev ⟨true, last⟩ st e hst).2 rfl
+        | request eps => simp [StopSrc.onEpochEnd] at hst; rw [← hst]
+      rw [hstop] at h
+      cases hrest : srcsEpochEnd ev e rest true with
+      | error err => rw [hrest] at h; cases h
+      | ok pr =>
+        obtain ⟨rest', stop''⟩ := pr
+        rw [hrest] at h
+        simp only [Except.ok.injEq, Prod.mk.injEq] at h
+        rw [← h.2]
+        exact ih rest' stop'' hrest
+
+/-- what is required of a stop source in the theorems below: a stopper has a patience `≥ 0`, a period `≥ 1`, and the
+evaluator tracks its quantity (`Mof name`, `Vof name`: monitored value / variance of the quantity `name` by world) -/
+def SrcOK (Mof Vof : String → W → Num ℝ) (ev : AnyEval W ℝ) (pts : List (Int × W)) : StopSrc ℝ → Prop
+  | .stopper es => 0 ≤ es.patience ∧ 1 ≤ es.period ∧
+      Monitors es.quantityName (Mof es.quantityName) (Vof es.quantityName) es.criterion ev pts
+  | .request _ => True
+
+/-- source `src` asks for a stop at epoch `e` when the evaluator holds the evaluation points `pts`: a stopper iff `e` is one
+of its checked epochs and ITS documented rule holds on `pts`; a requesting callback iff `e` is one of its epochs -/
+def FiresAt (Mof Vof : String → W → Num ℝ) (src : StopSrc ℝ) (e : Int) (pts : List (Int × W)) : Prop :=
+  match src with
+  | .stopper es => es.period ∣ e ∧
+      StopRule es.criterion es.patience.toNat (tolSpec es.tolerance) (histOf (Mof es.quantityName) (Vof es.quantityName) pts)
+  | .request eps => e ∈ eps
+
+/-- the same at candidate `x` of a run (`pre`: the candidates before it, `prev`: evaluations of earlier runs); `evalFirst`:
+the source is listed AFTER the evaluator -/
+def Fires (Mof Vof : String → W → Num ℝ) (evalFirst : Bool) (pe : Int) (prev pre : List (Int × W)) (x : Int × W)
+    (src : StopSrc ℝ) : Prop :=
+  FiresAt Mof Vof src x.1 (visible evalFirst pe prev pre x)
+
+theorem fires_stopper (Mof Vof : String → W → Num ℝ) (evalFirst : Bool) (pe : Int) (prev pre : List (Int × W)) (x : Int × W)
+    (es : EarlyStopping ℝ) :
+    Fires Mof Vof evalFirst pe prev pre x (.stopper es) ↔
+      StopsAt es es.patience.toNat evalFirst pe (Mof es.quantityName) (Vof es.quantityName) prev pre x := Iff.rfl
+
+theorem fires_cons (Mof Vof : String → W → Num ℝ) (evalFirst : Bool) (pe : Int) (prev pre : List (Int × W)) (y x : Int × W)
+    (src : StopSrc ℝ) :
+    Fires Mof Vof evalFirst pe prev (y :: pre) x src = Fires Mof Vof evalFirst pe (prev ++ evalPoints pe [y]) pre x src := by
+  unfold Fires
+  rw [visible_cons]
+
+open Classical in
+/-- a source's `last_epoch` after a dispatch at epoch `e`: `e` if it asked for the stop (stoppers only), else unchanged -/
+noncomputable def updLast (Mof Vof : String → W → Num ℝ) (e : Int) (pts : List (Int × W)) (p : StopSrc ℝ × Option Int) :
+    StopSrc ℝ × Option Int :=
+  match p.1 with
+  | .stopper _ => (p.1, if FiresAt Mof Vof p.1 e pts then some e else p.2)
+  | .request _ => p
+
+/-- one source's `on_epoch_end` against its rule -/
+theorem src_onEpochEnd (Mof Vof : String → W → Num ℝ) {ev : AnyEval W ℝ} {pts : List (Int × W)} (src : StopSrc ℝ)
+    (hok : SrcOK Mof Vof ev pts src) (stop : Bool) (last : Option Int) (e : Int) :
+    ∃ st, src.onEpochEnd ev stop last e = .ok st ∧ (src, st.lastEpoch) = updLast Mof Vof e pts (src, last) ∧
+      (st.stop = true ↔ stop = true ∨ FiresAt Mof Vof src e pts) := by
+  cases src with
+  | request eps =>
+    refine ⟨⟨stop || eps.contains e, last⟩, rfl, rfl, ?_⟩
+    simp [FiresAt]
+  | stopper es =>
+    obtain ⟨hp0, hps, hmon⟩ := hok
+    have hp : es.patience = ((es.patience.toNat : ℕ) : Int) := (Int.toNat_of_nonneg hp0).symm
+    have hstep := stopper_onEpochEnd es es.patience.toNat hp hps hmon ⟨stop, last⟩ e
+    by_cases hf : FiresAt Mof Vof (.stopper es) e pts
+    · refine ⟨⟨true, some e⟩, hstep.1 hf, ?_, ?_⟩
+      · simp [updLast, hf]
+      · simp [hf]
+    · refine ⟨⟨stop, last⟩, hstep.2 hf, ?_, ?_⟩
+      · simp [updLast, hf]
+      · simp [hf]
+
+/-- the dispatch over consecutive sources against their rules: it never raises; every source's `last_epoch` is updated
+by `updLast`; the flag afterwards is set iff it was set before or SOME source of the sequence asked for the stop -/
+theorem srcs_step (Mof Vof : String → W → Num ℝ) {ev : AnyEval W ℝ} {pts : List (Int × W)} (e : Int)
+    (l : List (StopSrc ℝ × Option Int)) :
+    (∀ p ∈ l, SrcOK Mof Vof ev pts p.1) → ∀ stop : Bool,
+    ∃ stop', srcsEpochEnd ev e l stop = .ok (l.map (updLast Mof Vof e pts), stop') ∧
+      (stop' = true ↔ stop = true ∨ ∃ p ∈ l, FiresAt Mof Vof p.1 e pts) := by
+  induction l with
+  | nil => intro _ stop; exact ⟨stop, rfl, by simp⟩
+  | cons p rest ih =>
+    intro hok stop
+    obtain ⟨src, last⟩ := p
+    obtain ⟨st, hst, hupd, hiff⟩ := src_onEpochEnd Mof Vof src (hok (src, last) (by simp)) stop last e
+    obtain ⟨stop', hrest, hiff'⟩ := ih (fun q hq => hok q (by simp [hq])) st.stop
+    refine ⟨stop', ?_, ?_⟩
+    · simp only [srcsEpochEnd, hst, hrest, List.map_cons, hupd]
+    · rw [hiff', hiff]
+      simp only [List.mem_cons, exists_eq_or_imp]
+      tauto
+
+/-- when no source of the sequence asks for the stop, nobody's `last_epoch` changes -/
+theorem updLast_id (Mof Vof : String → W → Num ℝ) (e : Int) (pts : List (Int × W)) (l : List (StopSrc ℝ × Option Int))
+    (h : ∀ p ∈ l, ¬ FiresAt Mof Vof p.1 e pts) : l.map (updLast Mof Vof e pts) = l := by
+  induction l with
+  | nil => rfl
+  | cons p rest ih =>
+    have h1 := h p (by simp)
+    have h2 := ih (fun q hq => h q (by simp [hq]))
+    obtain ⟨src, last⟩ := p
+    cases src with
+    | stopper es => simp only [List.map_cons, h2, updLast]; simp [h1]
+    | request eps => simp only [List.map_cons, h2, updLast]
+
+/-- `SrcOK` is carried along by the evaluator's step -/
+theorem srcOK_step (Mof Vof : String → W → Num ℝ) {ev ev' : AnyEval W ℝ} {pts : List (Int × W)} (e : Int) (w : W)
+    (hev : ev.onEpochEnd e w = .ok ev') (src : StopSrc ℝ) (hok : SrcOK Mof Vof ev pts src) :
+    SrcOK Mof Vof ev' (pts ++ evalPoints (evalPeriod ev) [(e, w)]) src := by
+  cases src with
+  | request eps => trivial
+  | stopper es =>
+    obtain ⟨hp0, hps, hmon⟩ := hok
+    obtain ⟨ev'', hev'', _, hmon'⟩ := monitors_step hmon e w
+    rw [hev] at hev''
+    cases hev''
+    exact ⟨hp0, hps, hmon'⟩
+
+/-- some source of the callback list `before ++ [evaluator] ++ after` asks for the stop at candidate `x` -/
+def AnyFires (Mof Vof : String → W → Num ℝ) (pe : Int) (before after : List (StopSrc ℝ × Option Int))
+    (prev pre : List (Int × W)) (x : Int × W) : Prop :=
+  (∃ p ∈ before, Fires Mof Vof false pe prev pre x p.1) ∨ (∃ p ∈ after, Fires Mof Vof true pe prev pre x p.1)
+
+open Classical in
+/-- the sources after the stopping dispatch at candidate `x`: `last_epoch = x` for the stoppers whose rule held there -/
+noncomputable def lastsAt (Mof Vof : String → W → Num ℝ) (evalFirst : Bool) (pe : Int) (prev pre : List (Int × W)) (x : Int × W)
+    (l : List (StopSrc ℝ × Option Int)) : List (StopSrc ℝ × Option Int) :=
+  l.map (updLast Mof Vof x.1 (visible evalFirst pe prev pre x))
+
+theorem lastsAt_cons (Mof Vof : String → W → Num ℝ) (evalFirst : Bool) (pe : Int) (prev pre : List (Int × W)) (y x : Int × W)
+    (l : List (StopSrc ℝ × Option Int)) :
+    lastsAt Mof Vof evalFirst pe prev (y :: pre) x l = lastsAt Mof Vof evalFirst pe (prev ++ evalPoints pe [y]) pre x l := by
+  unfold lastsAt
+  rw [visible_cons]
+
+/-- **C18 first-stop with several stop sources.** Run `fit` with the callback list `before ++ [evaluator] ++ after`, where
+`before` and `after` are ANY sequences of `EarlyStopping` callbacks (each with its own criterion, patience `≥ 0`, period
+`≥ 1`, tolerance in `ℝ ∪ {∞}`, monitored quantity) and of other callbacks that request a stop at given epochs.  The run does
+not raise, and
+* either there is a FIRST candidate `x` at which SOME source asks for the stop — a stopper listed before the evaluator whose
+  rule holds on the evaluations without this epoch's, one listed after it whose rule holds with it, a requesting callback
+  —; then training stops exactly there: the completed dispatches are those of `pre ++ [x]`, the flag is set — although the
+  sources dispatched after the asking one did not ask —, every stopper whose rule held at `x` has `last_epoch = x`, every
+  other source's `last_epoch` is unchanged;
+* or no source ever asks; then every dispatch completed, the flag is clear and every `last_epoch` unchanged. -/
+theorem C18_first_stop_multi (Mof Vof : String → W → Num ℝ) (before after : List (StopSrc ℝ × Option Int))
+    (cands : List (Int × W)) :
+    ∀ (ev : AnyEval W ℝ) (prev : List (Int × W)) (fired₀ : List Int),
+    (∃ name crit, Monitors name (Mof name) (Vof name) crit ev prev) →
+    (∀ p ∈ before ++ after, SrcOK Mof Vof ev prev p.1) →
+    ∃ r, fitRunMulti ⟨ev, before, after, false, fired₀⟩ cands = .ok r ∧
+      ((∃ pre x post, cands = pre ++ x :: post ∧
+          AnyFires Mof Vof (evalPeriod ev) before after prev pre x ∧
+          (∀ pre' x' post', cands = pre' ++ x' :: post' → pre'.length < pre.length →
+            ¬ AnyFires Mof Vof (evalPeriod ev) before after prev pre' x') ∧
+          r.stop = true ∧ r.fired = fired₀ ++ (pre ++ [x]).map Prod.fst ∧
+          r.before = lastsAt Mof Vof false (evalPeriod ev) prev pre x before ∧
+          r.after = lastsAt Mof Vof true (evalPeriod ev) prev pre x after) ∨
+       ((∀ pre x post, cands = pre ++ x :: post → ¬ AnyFires Mof Vof (evalPeriod ev) before after prev pre x) ∧
+          r.stop = false ∧ r.fired = fired₀ ++ cands.map Prod.fst ∧ r.before = before ∧ r.after = after)) := by
+  simp only [fitRunMulti, Bool.false_eq_true, if_false]
+  induction cands with
+  | nil =>
+    intro ev prev fired₀ _ _
+    refine ⟨_, rfl, Or.inr ⟨?_, rfl, by simp, rfl, rfl⟩⟩
+    intro pre x post h
+    simp at h
+  | cons y rest ih =>
+    intro ev prev fired₀ hev hok
+    obtain ⟨e, w⟩ := y
+    obtain ⟨name, crit, hmon0⟩ := hev
+    obtain ⟨ev', hev', hper, hmon0'⟩ := monitors_step hmon0 e w
+    have hokB : ∀ p ∈ before, SrcOK Mof Vof ev prev p.1 := fun p hp => hok p (by simp [hp])
+    have hokA : ∀ p ∈ after, SrcOK Mof Vof ev' (prev ++ evalPoints (evalPeriod ev) [(e, w)]) p.1 :=
+      fun p hp => srcOK_step Mof Vof e w hev' p.1 (hok p (by simp [hp]))
+    have hvisF : visible false (evalPeriod ev) prev [] (e, w) = prev := by simp [visible, evalPoints]
+    have hvisT : visible true (evalPeriod ev) prev [] (e, w) = prev ++ evalPoints (evalPeriod ev) [(e, w)] := by
+      simp [visible]
+    obtain ⟨stop1, hB, hiffB⟩ := srcs_step Mof Vof e before hokB false
+    obtain ⟨stop2, hA, hiffA⟩ := srcs_step Mof Vof e after hokA stop1
+    have hstep : epochEndMulti ⟨ev, before, after, false, fired₀⟩ e w
+        = .ok ⟨ev', before.map (updLast Mof Vof e prev),
+            after.map (updLast Mof Vof e (prev ++ evalPoints (evalPeriod ev) [(e, w)])), stop2, fired₀ ++ [e]⟩ := by
+      simp only [epochEndMulti, hB, hev', hA]
+    have hany : stop2 = true ↔ AnyFires Mof Vof (evalPeriod ev) before after prev [] (e, w) := by
+      rw [hiffA, hiffB]
+      unfold AnyFires Fires
+      rw [hvisF, hvisT]
+      simp
+    by_cases hnow : AnyFires Mof Vof (evalPeriod ev) before after prev [] (e, w)
+    · have hs2 : stop2 = true := hany.mpr hnow
+      rw [hs2] at hstep
+      refine ⟨⟨ev', before.map (updLast Mof Vof e prev),
+            after.map (updLast Mof Vof e (prev ++ evalPoints (evalPeriod ev) [(e, w)])), true, fired₀ ++ [e]⟩,
+          by simp only [fitLoopMulti, hstep, if_true], Or.inl ⟨[], (e, w), rest, rfl, hnow, ?_, rfl, by simp, ?_, ?_⟩⟩
+      · intro pre' x' post' _ hlt
+        simp at hlt
+      · simp only [lastsAt, hvisF]
+      · simp only [lastsAt, hvisT]
+    · have hs2 : stop2 = false := by
+        cases h : stop2 with
+        | false => rfl
+        | true => exact absurd (hany.mp h) hnow
+      have hnoB : ∀ p ∈ before, ¬ FiresAt Mof Vof p.1 e prev := by
+        intro p hp hf
+        apply hnow
+        left
+        refine ⟨p, hp, ?_⟩
+        unfold Fires
+        rw [hvisF]
+        exact hf
+      have hnoA : ∀ p ∈ after, ¬ FiresAt Mof Vof p.1 e (prev ++ evalPoints (evalPeriod ev) [(e, w)]) := by
+        intro p hp hf
+        apply hnow
+        right
+        refine ⟨p, hp, ?_⟩
+        unfold Fires
+        rw [hvisT]
+        exact hf
+      rw [updLast_id Mof Vof e prev before hnoB, updLast_id Mof Vof e _ after hnoA, hs2] at hstep
+      have hok' : ∀ p ∈ before ++ after, SrcOK Mof Vof ev' (prev ++ evalPoints (evalPeriod ev) [(e, w)]) p.1 :=
+        fun p hp => srcOK_step Mof Vof e w hev' p.1 (hok p hp)
+      obtain ⟨r, hr, hcases⟩ := ih ev' (prev ++ evalPoints (evalPeriod ev) [(e, w)]) (fired₀ ++ [e]) ⟨name, crit, hmon0'⟩ hok'
+      refine ⟨r, by simp [fitLoopMulti, hstep, hr], ?_⟩
+      rw [hper] at hcases
+      have hshift : ∀ pre x, AnyFires Mof Vof (evalPeriod ev) before after (prev ++ evalPoints (evalPeriod ev) [(e, w)]) pre x
+          = AnyFires Mof Vof (evalPeriod ev) before after prev ((e, w) :: pre) x := by
+        intro pre x
+        unfold AnyFires
+        simp only [fires_cons]
+      rcases hcases with ⟨pre, x, post, hsplit, hst, hearlier, hrst, hrf, hrb, hra⟩ | ⟨hnone, hrst, hrf, hrb, hra⟩
+      · refine Or.inl ⟨(e, w) :: pre, x, post, by simp [hsplit], ?_, ?_, hrst, by simp [hrf], ?_, ?_⟩
+        · rw [← hshift]; exact hst
+        · intro pre' x' post' hsplit' hlt
+          rcases List.cons_eq_append_iff.mp hsplit' with ⟨h1, h2⟩ | ⟨q, h1, h2⟩
+          · subst h1
+            simp only [List.cons.injEq] at h2
+            obtain ⟨h2a, _⟩ := h2
+            subst h2a
+            exact hnow
+          · subst h1
+            have := hearlier q x' post' h2 (by simpa using hlt)
+            rw [hshift] at this
+            exact this
+        · rw [lastsAt_cons]; exact hrb
+        · rw [lastsAt_cons]; exact hra
+      · refine Or.inr ⟨?_, hrst, by simp [hrf], hrb, hra⟩
+        intro pre' x' post' hsplit'
+        rcases List.cons_eq_append_iff.mp hsplit' with ⟨h1, h2⟩ | ⟨q, h1, h2⟩
+        · subst h1
+          simp only [List.cons.injEq] at h2
+          obtain ⟨h2a, _⟩ := h2
+          subst h2a
+          exact hnow
+        · subst h1
+          have := hnone q x' post' h2
+          rw [hshift] at this
+          exact this
+
 /-! ### constructor table -/
 
 /-- **C18 variance refused.** `criterion` normalising (strip, lower) to "variance" with a `MetricEvaluator`
@@ -583,6 +888,58 @@ example : (fitRun (exStopper .relative 0.01) true
       Num.sub, Num.abs, Num.npDivide, NumKind.join, belowTol]
     norm_num
   simp [fitRun, fitLoop, h1, h2, h3, Except.map]
+
+/-- a stopper of period 1 and patience 2 on "m" -/
+def exStopper2 (crit : Criterion) (tol : ℝ) : EarlyStopping ℝ := ⟨1, some tol, 2, "m", crit, .metric⟩
+
+/-- **Two stoppers in one fit (regression witness for a stopper that CLEARS the flag).** Values `1, 5, 5, 5`; callback list
+`[evaluator, A, B]` with `A` = absolute, tolerance `0.01`, patience 1 and `B` = the same with patience 2, and a third
+callback requesting nothing.  At epoch 3 `A`'s rule is met (`|5 − 5| < 0.01`) while `B`, dispatched after `A`, compares `1`
+with `5` and is not converged: the run stops at epoch 3 all the same, `A.last_epoch = 3`, `B.last_epoch` stays `None`.
+(With `stop_training = (deviation < tolerance)` in `B` the flag would be cleared again and the run would go on to epoch 4.) -/
+example : (fitRunMulti ⟨exEval f15, [], [(.stopper (exStopper .absolute 0.01), none), (.stopper (exStopper2 .absolute 0.01), none),
+        (.request [], none)], false, []⟩ [(1, 1), (2, 2), (3, 3), (4, 4)]).map
+        (fun r => (r.stop, r.fired, r.after.map Prod.snd)) = .ok (true, [1, 2, 3], [some 3, none, none]) := by
+  have h1 : epochEndMulti ⟨exEval f15, [], [(.stopper (exStopper .absolute 0.01), none), (.stopper (exStopper2 .absolute 0.01), none),
+        (.request [], none)], false, []⟩ 1 1
+      = .ok ⟨exEvalAt f15 [(1, 1)], [], [(.stopper (exStopper .absolute 0.01), none), (.stopper (exStopper2 .absolute 0.01), none),
+        (.request [], none)], false, [1]⟩ := by
+    simp [epochEndMulti, srcsEpochEnd, StopSrc.onEpochEnd, exEval, exEvalAt, exEval_step, f15, exStopper, exStopper2,
+      EarlyStopping.onEpochEnd, gate_pos, AnyEval.len, EvalState.len]
+  have h2 : epochEndMulti ⟨exEvalAt f15 [(1, 1)], [], [(.stopper (exStopper .absolute 0.01), none), (.stopper (exStopper2 .absolute 0.01), none),
+        (.request [], none)], false, [1]⟩ 2 2
+      = .ok ⟨exEvalAt f15 [(1, 1), (2, 5)], [], [(.stopper (exStopper .absolute 0.01), none), (.stopper (exStopper2 .absolute 0.01), none),
+        (.request [], none)], false, [1, 2]⟩ := by
+    simp [epochEndMulti, srcsEpochEnd, StopSrc.onEpochEnd, exEvalAt, exEval_step, f15, exStopper, exStopper2,
+      EarlyStopping.onEpochEnd, gate_pos,
+      AnyEval.len, EvalState.len, EarlyStopping.deviation, EarlyStopping.absoluteChange,
+      EarlyStopping.changeInMetric, AnyEval.value, EvalState.getValue, pyIndex, Dict.getItem, List.lookup,
+      Num.sub, Num.abs, NumKind.join, belowTol]
+    norm_num
+  have h3 : epochEndMulti ⟨exEvalAt f15 [(1, 1), (2, 5)], [], [(.stopper (exStopper .absolute 0.01), none), (.stopper (exStopper2 .absolute 0.01), none),
+        (.request [], none)], false, [1, 2]⟩ 3 3
+      = .ok ⟨exEvalAt f15 [(1, 1), (2, 5), (3, 5)], [], [(.stopper (exStopper .absolute 0.01), some 3), (.stopper (exStopper2 .absolute 0.01), none),
+        (.request [], none)], true, [1, 2, 3]⟩ := by
+    simp [epochEndMulti, srcsEpochEnd, StopSrc.onEpochEnd, exEvalAt, exEval_step, f15, exStopper, exStopper2,
+      EarlyStopping.onEpochEnd, gate_pos,
+      AnyEval.len, EvalState.len, EarlyStopping.deviation, EarlyStopping.absoluteChange,
+      EarlyStopping.changeInMetric, AnyEval.value, EvalState.getValue, pyIndex, Dict.getItem, List.lookup,
+      Num.sub, Num.abs, NumKind.join, belowTol]
+    norm_num
+  simp [fitRunMulti, fitLoopMulti, h1, h2, h3, Except.map]
+
+/-- the hypotheses of `C18_first_stop_multi` are satisfiable by that list: both stoppers are `SrcOK` for the example evaluator -/
+example : ∀ p ∈ ([] : List (StopSrc ℝ × Option Int)) ++ [(.stopper (exStopper .absolute 0.01), none),
+      (.stopper (exStopper2 .absolute 0.01), none), (.request [7], none)],
+    SrcOK (fun _ => f15) (fun _ => f15) (exEval f15) [] p.1 := by
+  have hm : Monitors "m" f15 f15 .absolute (exEval f15) [] :=
+    ⟨by simp, by simp [MetricEvaluator.names, Dict.keys], by simp, by simp, by simp, rfl⟩
+  intro p hp
+  simp only [List.nil_append, List.mem_cons, List.not_mem_nil, or_false] at hp
+  rcases hp with rfl | rfl | rfl
+  · exact ⟨by simp [exStopper], by simp [exStopper], hm⟩
+  · exact ⟨by simp [exStopper2], by simp [exStopper2], hm⟩
+  · trivial
 
 /-- Python's own `/` (still used for `abs(change) / np.sqrt(variance)`, whose divisor is a numpy scalar) raises
 exactly for Python-float / Python-float zero; `np.divide` never raises; a zero divisor is never divided by -/
